@@ -194,6 +194,24 @@ static void add_teletext(std::vector<Frame>& fr, uint64_t seed, int pct, int fau
   }
 }
 
+// dropped frames in caption-only runs too (the decoder then counts 40 frames down before it assumes a channel switch:
+// the state in which an explicit switch request meets a running countdown)
+static void add_gaps(std::vector<Frame>& fr, uint64_t seed, int pct, RunCtx& ctx) {
+  Rng r(seed, "gaps");
+  double shift = 0;
+  for (size_t i = 0; i < fr.size(); i++) {
+    if ((int)r.below(100) < pct) { shift += 0.2 + (double)r.below(30) / 10.0; ctx.count("fault_frames_dropped"); }
+    fr[i].ts += shift;
+  }
+}
+
+static void (*g_on_caption_reset)() = nullptr;
+extern "C" void __real_vbi_caption_channel_switched(vbi_decoder*);
+extern "C" void __wrap_vbi_caption_channel_switched(vbi_decoder* d) {   // called by vbi_chsw_reset() (vbi.c) and vbi_event_enable()
+  if (g_on_caption_reset) g_on_caption_reset();
+  __real_vbi_caption_channel_switched(d);
+}
+
 static uint64_t page_hash(vbi_bool ok, const vbi_page& pg) {
   Fnv h;
   h.u64((uint64_t)ok);
@@ -230,6 +248,7 @@ struct C20 : World {
       // Teletext on the same decoder (half of the runs), with damaged / foreign headers and dropped frames
       p.knobs["ttx_pct"] = r.chance(1, 2) ? 0 : 20 + (int64_t)r.below(81);
       p.knobs["ttx_fault_pct"] = r.chance(1, 4) ? 0 : 2 + (int64_t)r.below(30);
+      p.knobs["gap_pct"] = r.chance(1, 2) ? 0 : 1 + (int64_t)r.below(6);   // dropped frames (also without Teletext)
       int nf = (int)r.range(1, 2);
       for (int t = 0; t < nf; t++) {
         int n = (int)r.range(5, thorough ? 200 : 50);
@@ -262,6 +281,11 @@ struct C20 : World {
     bool handler_fetches = false;
     std::vector<uint64_t> handler_results;   // results of fetches done by the handler on D (part of D's own execution)
     std::vector<uint64_t> decode_obs;        // what D itself observes: nothing functional, kept for symmetry
+    // "request a channel switch" must take effect (vbi_channel_switched documentation: "the reset is not executed until the
+    // next frame is about to be decoded"): calls of vbi_decode() during which the caption decoder was reset, and the call
+    // in progress (or next to start) when each request returned.  Concurrent phase only.
+    bool concurrent = false; int cur_call = -1; bool in_decode = false;
+    std::vector<int> reset_calls; std::vector<std::pair<int, int>> request_calls;
     CapRun(RunCtx& c, const Plan& p) : ctx(c), plan(p) {}
   };
   static CapRun* gc;
@@ -289,11 +313,18 @@ struct C20 : World {
     for (size_t k = 0; k < f.ttx.size() && n < 4; k++) { s[n].id = VBI_SLICED_TELETEXT_B; s[n].line = 7 + (uint32_t)k; memcpy(s[n].data, f.ttx[k].b, 42); n++; }
     s[n].id = VBI_SLICED_CAPTION_525_F1; s[n].line = 21; s[n].data[0] = f.f1[0]; s[n].data[1] = f.f1[1]; n++;
     s[n].id = VBI_SLICED_CAPTION_525_F2; s[n].line = 284; s[n].data[0] = f.f2[0]; s[n].data[1] = f.f2[1]; n++;
+    r.cur_call = i; r.in_decode = true;
     vbi_decode(r.dec, s, n, f.ts);
+    r.in_decode = false;
   }
   static uint64_t cap_exec(CapRun& r, const Op& op) {
     if (op.kind == "fetch") { vbi_page pg; memset(&pg, 0, sizeof pg); vbi_bool ok = vbi_fetch_cc_page(r.dec, &pg, 1 + (int)absmod(op.arg(0) - 1, 8), TRUE); return page_hash(ok, pg); }
-    if (op.kind == "switch") { vbi_channel_switched(r.dec, 0); return 1; }
+    if (op.kind == "switch") {
+      int k0 = r.in_decode ? r.cur_call : r.cur_call + 1;   // the request takes effect somewhere between invocation and return
+      vbi_channel_switched(r.dec, 0);
+      if (r.concurrent) { HarnessScope hs; r.request_calls.push_back({k0, r.in_decode ? r.cur_call : r.cur_call + 1}); r.ctx.log("switch request invoked at call %d, returned at call %d (%s)", k0, r.cur_call, r.in_decode ? "in progress" : "finished"); }
+      return 1;
+    }
     return 0;
   }
 
@@ -301,8 +332,10 @@ struct C20 : World {
     CapRun R(ctx, plan); gc = &R;
     R.stream = make_caption_stream((uint64_t)plan.knob("stream_seed", 1), 1 + (int)absmod(plan.knob("frames", 40) - 1, 600), plan.knob("xds", 0) != 0);
     if (plan.knob("ttx_pct", 0) > 0) add_teletext(R.stream, (uint64_t)plan.knob("stream_seed", 1), (int)absmod(plan.knob("ttx_pct", 0), 101), (int)absmod(plan.knob("ttx_fault_pct", 0), 101), ctx);
+    if (plan.knob("gap_pct", 0) > 0) add_gaps(R.stream, (uint64_t)plan.knob("stream_seed", 1), (int)absmod(plan.knob("gap_pct", 0), 101), ctx);
     R.handler_fetches = plan.knob("handler_fetches", 0) != 0;
     R.lin.ctx = &ctx;
+    g_on_caption_reset = [] { if (gc && gc->concurrent) { HarnessScope hs; gc->reset_calls.push_back(gc->cur_call); gc->ctx.log("caption decoder reset during call %d", gc->cur_call); } };
     std::vector<uint64_t> conc_handler;
     {
       Sched sched(ctx, (uint64_t)plan.knob("sched_seed", (int64_t)plan.seed), (Policy)absmod(plan.knob("policy"), 3), (int)plan.knob("pparam"));
@@ -335,7 +368,9 @@ struct C20 : World {
         }, 512 * 1024);
       }
       rd.arm();
+      R.concurrent = true;
       int rc = sched.run(50000000);
+      R.concurrent = false;
       rd.disarm();
       ctx.count("memory_accesses_tracked", (int64_t)rd.accesses);
       ctx.count("preemptions_at_memory_accesses", (int64_t)rd.preemptions);
@@ -346,6 +381,7 @@ struct C20 : World {
       for (auto& f : R.lin.ops) ctx.log("op %d task %d mutex %d pos %d -> %016llx", f.opidx, f.task, f.mutex, f.pos, (unsigned long long)f.result);
       conc_handler = R.handler_results;
       k.sync_hook = nullptr;
+      if (!ctx.failed) check_switch_requests(R);
       if (!ctx.failed) vbi_decoder_delete(R.dec);
       R.dec = nullptr;
       if (ctx.failed) return;
@@ -366,7 +402,36 @@ struct C20 : World {
       ctx.nontrivial = positioned >= 3 && sched.switches() > 20;
       ctx.sim_seconds = (double)R.stream.size() / 30.0;
     }
-    gc = nullptr;
+    gc = nullptr; g_on_caption_reset = nullptr;
+  }
+
+  // "Other threads may ... request a channel switch": the request must not get lost.  vbi_channel_switched() documents that
+  // the reset "is not executed until the next frame is about to be decoded"; so with K0 / K the vbi_decode() call in progress
+  // (or the next one to start) when the request was invoked / returned, the caption decoder must have been reset during one
+  // of the calls K0 .. the second one after K that has a regular timestamp (calls with an irregular timestamp only count
+  // frames as dropped).  Deliberately loose: a reset executed during call K before the request arrived counts (a request
+  // that meets a reset in progress is served by it), and any reset counts, whatever caused it.  Judged in runs without
+  // Teletext only: a rolling page header that matches the station's clears the decoder's countdown, a request arriving
+  // during that frame is then cancelled by design of the header heuristic (packet.c store_lop()), which no property covers.
+  static void check_switch_requests(CapRun& R) {
+    if (R.plan.knob("ttx_pct", 0) > 0) return;
+    int n = (int)R.stream.size();
+    auto regular = [&](int i) { if (i <= 0) return true; double d = R.stream[(size_t)i].ts - R.stream[(size_t)i - 1].ts; return d >= 0.025 && d <= 0.050; };
+    for (auto& rq : R.request_calls) {
+      int k0 = rq.first, k = rq.second;
+      if (k >= n) continue;
+      int j = k, cnt = 0;
+      while (++j < n) { if (regular(j) && ++cnt == 2) break; }
+      if (j >= n) { R.ctx.count("switch_requests_not_judged_at_end_of_stream"); continue; }
+      bool ok = false;
+      for (int rc : R.reset_calls) if (rc >= k0 && rc <= j) ok = true;
+      R.ctx.count("switch_requests_judged");
+      if (!ok) {
+        R.ctx.fail("oracle:switch-request-lost", "vbi_channel_switched() was called during (or before) vbi_decode() call #%d and returned during (or before) call #%d, but the caption decoder was not reset during calls #%d..#%d (two regular frames later): the request got lost",
+                   k0, k, k0, j);
+        return;
+      }
+    }
   }
 
   // ---------------------------------------------------------------------------------------------- mode 1 ----
